@@ -11,7 +11,7 @@
      good_leaves t  every leaf carries a taxon and no taxon sits on two leaves
    Lengths are integers in units of 2^-10 (None = Python None, counted as 0). *)
 From Coq Require Import ZArith QArith List Bool.
-From DV Require Import Model.PyPrims Model.Tree Model.C14Model Model.C14Spec Model.C14Spec2 Model.C14Csv Proofs.C14Proofs Proofs.C14Means Proofs.C14Clu Proofs.C14Upgma Proofs.C14Nj Proofs.C14Ultra Proofs.C14Uniq Proofs.C14UpgmaFull Proofs.C14CsvProofs Proofs.C14Qcrit Proofs.C14FourPoint Proofs.C14NjQ Proofs.C14NjTree.
+From DV Require Import Model.PyPrims Model.Tree Model.C14Model Model.C14Spec Model.C14Spec2 Model.C14Spec3 Model.C14Csv Proofs.C14Proofs Proofs.C14Means Proofs.C14Clu Proofs.C14Upgma Proofs.C14Nj Proofs.C14Ultra Proofs.C14Uniq Proofs.C14UpgmaFull Proofs.C14CsvProofs Proofs.C14Qcrit Proofs.C14FourPoint Proofs.C14NjQ Proofs.C14NjTree Proofs.C14SplitTree Proofs.C14SplitFormula Proofs.C14NjUniq Proofs.C14NjUniqEx Proofs.C14NjPoly.
 Import ListNotations.
 Open Scope Z_scope.
 
@@ -363,8 +363,9 @@ Print Assumptions ultrametric_tree_nonvacuous.
    tree with positive internal edge lengths": qcrit_cherry P (Saitou-Nei 1987, Studier-Keppler 1988)
    and qcrit_closed P -- is proved for every number of nodes at the end of this file (q_criterion),
    which makes the statement unconditional (nj_recovers_additive, nj_recovers_tree).
-   MISSING (not proved): the uniqueness of the unrooted tree realising a metric; that NJ's output has
-   the generating tree's splits is therefore checked by the correspondence oracle only. *)
+   The uniqueness of the unrooted tree realising a metric, and with it "NJ's output has the generating
+   tree's splits and lengths", is proved in the sixth wave at the end of this file (tree_metric_unique,
+   nj_returns_tree_of_matrix, nj_returns_generating_tree). *)
 Theorem nj_recovers_additive_partial : forall M order (P : list jnode -> Prop),
   NoDup order -> order <> [] -> mcomplete M order -> msymmetric M order ->
   qcrit_cherry P -> qcrit_closed P -> (forall pool, nj_init M order = Ok pool -> P pool) ->
@@ -512,8 +513,8 @@ Print Assumptions q_criterion_up_to_five.
    nj_tree returns a tree whose path distance between any two taxa is the matrix entry
    (PDM(NJ(M)) = M; the lengths assigned at each join are the exact pendant lengths by
    nj_step_sound).  (Superseded by nj_recovers_additive below, which has no size bound; kept as the
-   exhaustive small-case analysis.)  Not proved: that a tree is determined by its (unrooted) metric --
-   recovery of unrooted splits with their lengths is checked by the correspondence oracle only.
+   exhaustive small-case analysis.)  That a tree is determined by its (unrooted) metric -- recovery of the
+   unrooted splits with their lengths -- is proved at the end of this file (sixth wave).
    (That the matrix of a binary rose tree with positive internal edge lengths satisfies
    mfour_point_strict IS proved: tree_matrix_four_point_strict below.) *)
 Theorem nj_recovers_additive_up_to_five_taxa : forall M order,
@@ -597,8 +598,8 @@ Print Assumptions nj_recovers_additive.
    non-negative lengths and positive lengths above its internal nodes, with ANY number of leaves, and
    every iteration order of (any non-empty subset of) its taxa: nj_tree applied to t's distance matrix
    returns a tree whose path distance between any two taxa is exactly t's -- PDM(NJ(PDM t)) = PDM t.
-   Still not proved: that an unrooted tree is determined by its metric (so that NJ's output IS t up to
-   rooting); checked by the correspondence oracle. *)
+   That an unrooted tree is determined by its metric, so that NJ's output IS t up to rooting, is
+   nj_returns_generating_tree at the end of this file (sixth wave). *)
 Theorem nj_recovers_tree : forall t p order,
   rbin t -> good_leaves t -> t_kids t <> [] -> positive_internal t -> nonneg_lengths t ->
   compile_from_tree t = Ok p ->
@@ -624,3 +625,214 @@ Example nj_recovers_tree_example :
     option_map Qred (qdist T 0 6) = Some (11 # 1)%Q /\ dist ex_nj7 0 6 = Some (11 * 1024).
 Proof. exact ex_nj7_runs. Qed.
 Print Assumptions nj_recovers_tree_example.
+
+(* ======================================================================================== *)
+(* SIXTH WAVE: A TREE IS DETERMINED BY ITS METRIC (Buneman / Zaretskii); NJ RETURNS THE TREE   *)
+(* ======================================================================================== *)
+(* Model/C14Spec3.v: qnodes T = the nodes of T other than the root (each as the subtree below it; the edge
+   above m has length qlen0 m); qcl m = "taxon x is below m" = one side of the split induced by that edge;
+   same_split L s c = s and c are the same bipartition of the taxa L (equal or complementary on L);
+   split_len T s = total length of the edges of T inducing the bipartition s of T's taxa -- the two edges
+   at a root with two children, and the edges around a node with one child, induce the same bipartition and
+   are counted together, so this is the length of the edge of the UNROOTED tree with unifurcations
+   suppressed (0 when s is not a split of T); split_nonneg T = no split has negative total length (implied
+   by "no edge has negative length": nonneg_edges_nonneg_splits).
+
+   UNIQUENESS.  Two trees -- ANY shape: polytomies, unifurcations anywhere, root of any degree; every leaf
+   carrying a taxon, no taxon twice -- on the same taxa, with no negative split and with equal leaf-to-leaf
+   path distances carry, on EVERY bipartition of the taxa into two non-empty parts, the same total length:
+   the same set of (positive-length) unrooted splits with the same lengths, and the same pendant lengths
+   (s = a single taxon against the rest).  They are equal as unrooted weighted trees (up to zero-length
+   edges, which a metric cannot see).  Positive internal lengths are not needed for this form.
+   Proof (Proofs/C14Split.v, C14SplitTree.v): d(x,y) = sum over the non-root nodes m of
+   [x below m xor y below m] * length; the clusters of a rooted tree are laminar (nested or disjoint), hence
+   d(a,b) + d(a',b') - d(a,a') - d(b,b') = 2 (weight separating aa'|bb') - 2 (weight separating ab|a'b'),
+   with at most one of the two kinds present.  Every node has a TIGHT quartet (separated only by the nodes
+   inducing the same split: chosen through a largest proper sub-cluster and a smallest proper
+   super-cluster); a bipartition all of whose quartets are separated by some node is a split (rooted
+   triples determine a cluster: chains of clusters through a common point).  Evaluating the tight quartet
+   of one tree in the other gives <= in both directions. *)
+Theorem tree_metric_unique : forall T1 T2,
+  qleaves_ok T1 -> qleaves_ok T2 -> NoDup (qtaxa T1) -> NoDup (qtaxa T2) ->
+  (forall x, qhas x T1 = qhas x T2) ->
+  (forall x y, qhas x T1 = true -> qhas y T1 = true -> x <> y ->
+     exists q1 q2, qdist T1 x y = Some q1 /\ qdist T2 x y = Some q2 /\ (q1 == q2)%Q) ->
+  split_nonneg T1 -> split_nonneg T2 ->
+  forall s, proper_split (qtaxa T1) s -> (split_len T1 s == split_len T2 s)%Q.
+Proof. exact Proofs.C14SplitTree.tree_metric_unique. Qed.
+Print Assumptions tree_metric_unique.
+
+Theorem nonneg_edges_nonneg_splits : forall T,
+  (forall m, In m (qnodes T) -> (0 <= qlen0 m)%Q) -> split_nonneg T.
+Proof. exact nodes_nonneg_split_nonneg. Qed.
+Print Assumptions nonneg_edges_nonneg_splits.
+
+(* a split of positive length is induced by an edge (so equal lengths on all bipartitions = equal split sets) *)
+Theorem positive_split_is_edge : forall T s,
+  (0 < split_len T s)%Q -> exists m, In m (qnodes T) /\ same_split (qtaxa T) s (qcl m) = true.
+Proof. exact split_present. Qed.
+Print Assumptions positive_split_is_edge.
+
+(* non-vacuity: the unrooted tree A-1-u, B-2-u, u-3-v, C-1-v, D-3-v rooted on the edge u..v (two root
+   edges 1 + 2) and rooted at u (a root with three children): all hypotheses hold, and AB|CD has length 3 in
+   both *)
+Example tree_metric_unique_nonvacuous :
+  qleaves_ok ex_u1 /\ qleaves_ok ex_u2 /\ NoDup (qtaxa ex_u1) /\ NoDup (qtaxa ex_u2) /\
+  (forall x, qhas x ex_u1 = qhas x ex_u2) /\
+  (forall x y, qhas x ex_u1 = true -> qhas y ex_u1 = true -> x <> y ->
+     exists q1 q2, qdist ex_u1 x y = Some q1 /\ qdist ex_u2 x y = Some q2 /\ (q1 == q2)%Q) /\
+  split_nonneg ex_u1 /\ split_nonneg ex_u2 /\
+  proper_split (qtaxa ex_u1) (fun x => x <? 2) /\
+  Qred (split_len ex_u1 (fun x => x <? 2)) = 3%Q /\ Qred (split_len ex_u2 (fun x => x <? 2)) = 3%Q.
+Proof. exact ex_u_ok. Qed.
+Print Assumptions tree_metric_unique_nonvacuous.
+
+(* THE SPLIT LENGTHS ARE AN EXPLICIT FUNCTION OF THE METRIC (qd = qdist as a total function, qpos = positive
+   part): twice the length of the split s is the minimum, over the quartets a, a' in s, b, b' outside
+   (a = a', b = b' allowed -- for the pendant edge of x: min over y, z of d(x,y) + d(x,z) - d(y,z)), of the
+   positive part of d(a,b) + d(a',b') - d(a,a') - d(b,b'): a lower bound that is attained.  Hence: s is an
+   edge of positive length iff every quartet across it satisfies the strict four-point inequality. *)
+Theorem split_len_formula : forall T s,
+  qleaves_ok T -> NoDup (qtaxa T) -> split_nonneg T -> proper_split (qtaxa T) s ->
+  let L := qtaxa T in
+  let e := fun a a' b b' => (qd T a b + qd T a' b' - qd T a a' - qd T b b')%Q in
+  (forall a a' b b', In a L -> In a' L -> In b L -> In b' L -> s a = true -> s a' = true -> s b = false -> s b' = false ->
+     (2 * split_len T s <= qpos (e a a' b b'))%Q) /\
+  (exists a a' b b', In a L /\ In a' L /\ In b L /\ In b' L /\ s a = true /\ s a' = true /\ s b = false /\ s b' = false /\
+     (qpos (e a a' b b') == 2 * split_len T s)%Q).
+Proof. exact Proofs.C14SplitFormula.split_len_formula. Qed.
+Print Assumptions split_len_formula.
+
+Theorem split_iff_four_point : forall T s,
+  qleaves_ok T -> NoDup (qtaxa T) -> split_nonneg T -> proper_split (qtaxa T) s ->
+  ((0 < split_len T s)%Q <->
+   forall a a' b b', In a (qtaxa T) -> In a' (qtaxa T) -> In b (qtaxa T) -> In b' (qtaxa T) ->
+     s a = true -> s a' = true -> s b = false -> s b' = false ->
+     (qd T a a' + qd T b b' < qd T a b + qd T a' b')%Q).
+Proof. exact Proofs.C14SplitFormula.split_iff_four_point. Qed.
+Print Assumptions split_iff_four_point.
+
+(* ---------------------------------------------------------------------------------------- *)
+(* NJ RETURNS THE TREE OF THE MATRIX.  On every complete symmetric matrix with non-negative entries, the
+   triangle inequality and the strictly resolved four-point condition -- any number of taxa, every
+   iteration order, every tie-break -- nj_tree returns a tree T that: realises the matrix; has exactly the
+   taxa iterated, each on one leaf, every leaf carrying a taxon (shape invariant over all iterations);
+   has no negative split and strictly positive internal splits (derived from the metric: the tight
+   quartet of an internal split evaluates to twice its length and is strictly resolved); and carries on
+   every bipartition the same length as ANY tree T' (any shape) on these taxa with no negative split that
+   realises the matrix.  So T IS the tree of the matrix, as an unrooted tree with edge lengths. *)
+Theorem nj_returns_tree_of_matrix : forall M order,
+  NoDup order -> order <> [] -> mcomplete M order -> msymmetric M order ->
+  mfour_point_strict M order -> mtriangle M order -> mnonneg M order ->
+  exists T, nj_tree M order = Ok T /\
+    (forall a b, In a order -> In b order -> a <> b -> exists q, qdist T a b = Some q /\ (q == mval M a b)%Q) /\
+    qleaves_ok T /\ NoDup (qtaxa T) /\ (forall a, qhas a T = true <-> In a order) /\
+    split_nonneg T /\
+    (forall m, In m (qnodes T) ->
+       (exists x x', x <> x' /\ qcl m x = true /\ qcl m x' = true) ->
+       (exists y y', y <> y' /\ In y order /\ In y' order /\ qcl m y = false /\ qcl m y' = false) ->
+       (0 < split_len T (qcl m))%Q) /\
+    forall T', qleaves_ok T' -> NoDup (qtaxa T') -> (forall a, qhas a T' = true <-> In a order) -> split_nonneg T' ->
+      (forall a b, In a order -> In b order -> a <> b -> exists q, qdist T' a b = Some q /\ (q == mval M a b)%Q) ->
+      forall s, proper_split order s -> (split_len T s == split_len T' s)%Q.
+Proof. exact nj_unique_l. Qed.
+Print Assumptions nj_returns_tree_of_matrix.
+
+(* the matrix compiled from any rose tree with distinct leaf taxa and non-negative lengths (any shape) is
+   complete, symmetric, non-negative, satisfies the triangle inequality, and is realised by the tree itself
+   (tq t = t with lengths in real units) *)
+Theorem tree_matrix_is_metric : forall t p order,
+  good_leaves t -> t_kids t <> [] -> nonneg_lengths t -> compile_from_tree t = Ok p ->
+  (forall a, In a order -> In (Some a) (leaf_taxa t)) ->
+  mcomplete (qtable p true) order /\ msymmetric (qtable p true) order /\
+  mnonneg (qtable p true) order /\ mtriangle (qtable p true) order /\
+  (forall a b, In a order -> In b order -> a <> b ->
+     exists q, qdist (tq t) a b = Some q /\ (q == mval (qtable p true) a b)%Q).
+Proof. exact tree_matrix_facts. Qed.
+Print Assumptions tree_matrix_is_metric.
+
+Example nj_returns_tree_of_matrix_nonvacuous :
+  exists p, compile_from_tree ex_nj7 = Ok p /\
+    mcomplete (qtable p true) [3; 0; 6; 2; 5; 1; 4] /\ msymmetric (qtable p true) [3; 0; 6; 2; 5; 1; 4] /\
+    mfour_point_strict (qtable p true) [3; 0; 6; 2; 5; 1; 4] /\ mtriangle (qtable p true) [3; 0; 6; 2; 5; 1; 4] /\
+    mnonneg (qtable p true) [3; 0; 6; 2; 5; 1; 4].
+Proof. exact ex_nj7_matrix. Qed.
+Print Assumptions nj_returns_tree_of_matrix_nonvacuous.
+
+(* NJ RETURNS THE GENERATING TREE (the property's sentence, full): for every binary rose tree t with
+   distinct leaf taxa, non-negative lengths and positive lengths above its internal nodes -- any number of
+   leaves -- and every iteration order of its taxa, nj_tree applied to t's distance matrix returns a tree T
+   on exactly t's taxa such that
+     - on EVERY bipartition s of the taxa, T and t carry the same total length: the same unrooted splits
+       with the same lengths (the two edges at t's root counted as the one unrooted edge they form; also T's
+       two root edges), the same pendant lengths;
+     - every internal edge of t has positive split length and is (induces the same split as) an edge of T;
+     - every internal split of T has positive length and is an edge of t.
+   T equals t up to rooting, child order, node ids and the representation of the rationals. *)
+Theorem nj_returns_generating_tree : forall t p order,
+  rbin t -> good_leaves t -> t_kids t <> [] -> positive_internal t -> nonneg_lengths t ->
+  compile_from_tree t = Ok p ->
+  NoDup order -> (forall a, In a order <-> In (Some a) (leaf_taxa t)) ->
+  exists T, nj_tree (qtable p true) order = Ok T /\
+    qleaves_ok T /\ NoDup (qtaxa T) /\ (forall a, qhas a T = true <-> In a order) /\
+    (forall s, proper_split order s -> (split_len T s == split_len (tq t) s)%Q) /\
+    (forall m, In m (qnodes (tq t)) -> q_kids m <> [] -> proper_split order (qcl m) ->
+       (0 < split_len (tq t) (qcl m))%Q /\
+       exists m', In m' (qnodes T) /\ same_split order (qcl m) (qcl m') = true) /\
+    (forall m', In m' (qnodes T) ->
+       (exists x x', x <> x' /\ qcl m' x = true /\ qcl m' x' = true) ->
+       (exists y y', y <> y' /\ In y order /\ In y' order /\ qcl m' y = false /\ qcl m' y' = false) ->
+       (0 < split_len T (qcl m'))%Q /\
+       exists m, In m (qnodes (tq t)) /\ same_split order (qcl m') (qcl m) = true).
+Proof. exact nj_returns_generating_tree_l. Qed.
+Print Assumptions nj_returns_generating_tree.
+
+(* non-vacuity: the seven-leaf witness ((A:1,B:3):2,((C:2,(D:1,E:4):1):3,(F:2,G:5):1):2) with all its taxa
+   iterated satisfies the hypotheses (with nj_recovers_tree_nonvacuous), and on it (computed) NJ's output
+   carries AB|CDEFG with length 2 + 2 (the two root edges of the generating tree, as there), DE|ABCFG with
+   length 1 and the pendant edge of G with length 5 *)
+Example nj_returns_generating_tree_nonvacuous :
+  (forall a, In a [3; 0; 6; 2; 5; 1; 4] <-> In (Some a) (leaf_taxa ex_nj7)) /\
+  exists p T, compile_from_tree ex_nj7 = Ok p /\ nj_tree (qtable p true) [3; 0; 6; 2; 5; 1; 4] = Ok T /\
+    Qred (split_len T (fun x => x <? 2)) = 4%Q /\ Qred (split_len (tq ex_nj7) (fun x => x <? 2)) = 4%Q /\
+    Qred (split_len T (fun x => (x =? 3) || (x =? 4))) = 1%Q /\
+    Qred (split_len T (fun x => x =? 6)) = 5%Q /\
+    proper_split [3; 0; 6; 2; 5; 1; 4] (fun x => x <? 2).
+Proof. exact (conj ex_nj7_all ex_nj7_splits). Qed.
+Print Assumptions nj_returns_generating_tree_nonvacuous.
+
+(* ---------------------------------------------------------------------------------------- *)
+(* GENERATING TREES WITH POLYTOMIES (four-point condition not strictly resolved), partial.  By the
+   uniqueness theorem, which needs no strictness: ANY tree T that realises the leaf distances of a rose tree
+   t (any shape, non-negative lengths) and has no negative split carries on every bipartition the length
+   it has in t; in particular every edge of T that induces no split of t has (together with the edges
+   parallel to it) length 0: T is a refinement of t with zero-length extra edges.
+   NOT proved: that nj_tree's output on such a matrix realises the distances and has no negative split, for
+   every tie-break (the Q-criterion proof of Proofs/C14NjQ.v uses strictly resolved quartets).  Computed on
+   the witness ((A:1,B:2,C:3):2,D:1,E:2): nj_tree returns ((A:1,B:2):0,(C:3,(D:1,E:2):2):0), which satisfies
+   every hypothesis; AB|CDE -- an edge of the output, not of the generating tree -- has length 0 in both,
+   DE|ABC length 2 in both. *)
+Theorem realising_tree_refines_partial : forall t T,
+  good_leaves t -> nonneg_lengths t ->
+  qleaves_ok T -> NoDup (qtaxa T) -> (forall a, qhas a T = true <-> In (Some a) (leaf_taxa t)) -> split_nonneg T ->
+  (forall a b, In (Some a) (leaf_taxa t) -> In (Some b) (leaf_taxa t) -> a <> b ->
+     exists q d, qdist T a b = Some q /\ dist t a b = Some d /\ (q == uq d)%Q) ->
+  (forall s, proper_split (qtaxa T) s -> (split_len T s == split_len (tq t) s)%Q) /\
+  (forall m, In m (qnodes T) -> proper_split (qtaxa T) (qcl m) ->
+     (forall n, In n (qnodes (tq t)) -> same_split (qtaxa T) (qcl m) (qcl n) = false) ->
+     (split_len T (qcl m) == 0)%Q).
+Proof. exact realising_tree_refines_l. Qed.
+Print Assumptions realising_tree_refines_partial.
+
+Example nj_polytomy_example :
+  (do p <- compile_from_tree ex_poly ;; nj_tree (qtable p true) [0; 1; 2; 3; 4]) = Ok ex_poly_nj /\
+  good_leaves ex_poly /\ nonneg_lengths ex_poly /\
+  qleaves_ok ex_poly_nj /\ NoDup (qtaxa ex_poly_nj) /\
+  (forall a, qhas a ex_poly_nj = true <-> In (Some a) (leaf_taxa ex_poly)) /\ split_nonneg ex_poly_nj /\
+  (forall a b, In (Some a) (leaf_taxa ex_poly) -> In (Some b) (leaf_taxa ex_poly) -> a <> b ->
+     exists q d, qdist ex_poly_nj a b = Some q /\ dist ex_poly a b = Some d /\ (q == uq d)%Q) /\
+  proper_split (qtaxa ex_poly_nj) (fun x => x <? 2) /\
+  Qred (split_len ex_poly_nj (fun x => x <? 2)) = 0%Q /\ Qred (split_len (tq ex_poly) (fun x => x <? 2)) = 0%Q /\
+  Qred (split_len ex_poly_nj (fun x => 3 <=? x)) = 2%Q /\ Qred (split_len (tq ex_poly) (fun x => 3 <=? x)) = 2%Q.
+Proof. exact (conj ex_poly_runs ex_poly_ok). Qed.
+Print Assumptions nj_polytomy_example.
